@@ -399,6 +399,10 @@ def wildcard_stream(ck, srcs, targets=("sql.sqlite", "sql.duckdb", "sql.bigquery
         for c, s in reversed(ex):
             exd[c] = sorted(set(s))
         want = {c: sorted(set(s)) for c, s in d["excluded"]}
+        if len(set(d["output"])) != len(d["output"]):
+            # hypothesis of c05_select_list_shows_requested (NoDup of the ids translate_wildcards hands to translate_select_items)
+            ck.disagreement("translate_wildcards returned an id twice: %s (program %s)" % (d["output"], src.replace("\n", " | ")[:150]),
+                            {"cols": d["cols"], "output": d["output"], "prql": src}, lambda c: None)
         if list(out) != d["output"] or exd != want:
             ck.disagreement("translate_wildcards: implementation differs from Model/Wildcards.v on cols=%s (program %s)" % (k[:200], src.replace("\n", " | ")[:150]),
                             {"cols": d["cols"], "implementation": {"output": d["output"], "excluded": d["excluded"]}, "model": {"output": list(out), "excluded": exd}, "prql": src},
@@ -546,7 +550,19 @@ def selectitems_stream(ck, srcs, targets=("sql.sqlite", "sql.duckdb", "sql.bigqu
     header = ("From Coq Require Import List Arith NArith.\nFrom PV Require Import Lib.ListX Model.Ident Model.NameGen Model.Wildcards Model.Dedup Model.SelectItems.\n"
               "Import ListNotations.\n")
     exprs, meta = [], []
-    for key in sorted(calls):
+    # every call with a star, an exclusion, an invented alias, a dropped item or the zero-column NULL; of the plain rest a sample
+    def interesting(k):
+        d = calls[k][0]
+        return (any(c["wild"] is not None for c in d["in"]["cols"]) or d["in"]["gen"] != d["gen_after"] or len(d["items"]) != len(d["final"])
+                or any(x.get("expected") is None for x in calls[k][1]))
+    keys = sorted(calls)
+    first = [k for k in keys if interesting(k)]
+    rest = [k for k in keys if not interesting(k)]
+    ck.rng.shuffle(rest)
+    cap = ck.n(900, 20000)
+    chosen = first[:cap] + rest[:max(0, cap - len(first))]
+    ck.coverage["select_items_calls_compared"] = len(chosen)
+    for key in chosen:
         d, pend, reserved, src, target = calls[key]
         i = d["in"]
         m = re.fullmatch(r"_expr_(\d+)", i["gen"])
